@@ -16,6 +16,9 @@ def random_program(sg, rng, steps):
         return t
     for _ in range(3):
         leaf((2, 3), bool(rng.rand() < 0.7))
+    leaf((2, 1, 4, 4), True)          # an image batch for the convolution / pooling / batch-norm slice of the API
+    conv = sg.nn.Conv2d(1, 2, 2)
+    bn = sg.nn.BatchNorm2d(2)
     ctx = None
     for _ in range(steps):
         r = rng.rand()
@@ -49,7 +52,7 @@ def random_program(sg, rng, steps):
                         except RuntimeError:
                             pass
                     continue
-                k = rng.randint(16)
+                k = rng.randint(22)
                 if a.shape == b.shape and k < 4:
                     out = [a + b, a * b, a - b, a / (b * b + 1.0)][k]
                 elif k == 4 and a.ndim == 2 and b.ndim == 2 and a.shape[1] == b.shape[0]:
@@ -76,6 +79,18 @@ def random_program(sg, rng, steps):
                     out = sg.nn.Linear(3, 2)(a)
                 elif k == 15:
                     out = a.mean()
+                elif k == 16 and a.ndim == 4 and a.shape[1] == 1 and a.shape[2] >= 2 and a.shape[3] >= 2:
+                    out = conv(a)
+                elif k == 17 and a.ndim == 4 and a.shape[2] >= 2 and a.shape[3] >= 2:
+                    out = F.max_pool2d(a, 2, 1) if rng.rand() < 0.5 else F.avg_pool2d(a, (2, 1))
+                elif k == 18 and a.ndim == 4 and a.shape[1] == 2:
+                    out = bn(a)
+                elif k == 19 and a.ndim == 2:
+                    out = sg.nn.CrossEntropyLoss()(a, sg.Tensor(np.zeros(a.shape[0], dtype=np.int64)))
+                elif k == 20 and a.shape == b.shape:
+                    out = sg.nn.MSELoss(reduction="sum")(a, b)
+                elif k == 21 and a.ndim == 4:
+                    out = a.flatten(1, -1)
                 else:
                     out = a * 1.5
                 pool.append(out)
